@@ -179,9 +179,15 @@ class Interruption(Harness):
                 progress_store = None
 
                 def log_progress(self, prog, level, bbox, tiles):
-                    # the ProgressLog stores current_progress_identifier() at every report; the
-                    # process is killed right after the stop-th report
+                    # the ProgressLog stores current_progress_identifier() at every report.
+                    # hard kill : the process dies right after the stop-th report (later reports lost)
+                    # graceful  : running() turns False at the stop-th report; the walker unwinds and
+                    #             its final report is written too -- the LAST identifier is what a
+                    #             continued run starts from
+                    if saved['stopped'] and cfg.get('stop', 'kill') == 'kill':
+                        return
                     if saved['stopped']:
+                        saved['id'] = prog.current_progress_identifier()
                         return
                     if stop is not None and saved['n'] == stop:
                         saved['id'] = prog.current_progress_identifier()
@@ -221,6 +227,10 @@ CANARIES = [
     ('tiles of unselected levels are seeded', 'SeedWalk', {'mapproxy.seed.seeder': [(
         "        process = False\n        if current_level in levels:", "        process = True\n        if current_level in levels:")]},
      dict(grid='f2', levels=[0, 2], meta=[2, 2], target_level=2)),
+    ('graceful stop unwinds the progress path before the final report', 'Interruption', {'mapproxy.seed.seeder': [(
+        "        yield\n\n        self.level_progress_percentages.pop()\n        self.progress_str_parts.pop()\n\n        self.level_progresses_level -= 1\n        if self.level_progresses_level == 0:\n            self.level_progresses = []",
+        "        try:\n            yield\n        finally:\n            self.level_progress_percentages.pop()\n            self.progress_str_parts.pop()\n            self.level_progresses_level -= 1\n            if self.level_progresses_level == 0:\n                self.level_progresses = []")]},
+     dict(grid='f2', levels=[0, 1], meta=[1, 1], target_level=1, stop='graceful')),
     ('continue skips the subtree that was in progress', 'Interruption', {'mapproxy.seed.seeder': [(
         "            if old < current:\n                return False\n            if old > current:\n                return True\n        return False",
         "            if old < current:\n                return False\n            if old > current:\n                return True\n        return True")]},
@@ -261,14 +271,15 @@ def obligations(tier, seed):
     for c in ([dict(grid='f2', levels=[0, 1], meta=[1, 1], target_level=1), dict(grid='sqrt2', levels=[0, 1], meta=[2, 2], target_level=1)] +
               ([dict(grid='f2', levels=[0, 1, 2], meta=[2, 2], target_level=2, width=1.2),
                 dict(grid='nonsq', levels=[0, 1], meta=[1, 1], target_level=1, width=1.0)] if tier == 'thorough' else [])):
-        name = 'interruption/%s/L%s/m%dx%d' % (c['grid'], '-'.join(map(str, c['levels'])), c['meta'][0], c['meta'][1])
-        specs.append(spec(MOD, 'Interruption', name, cfg=c, cost=200))
+        for stop in ('kill', 'graceful'):
+            name = 'interruption-%s/%s/L%s/m%dx%d' % (stop, c['grid'], '-'.join(map(str, c['levels'])), c['meta'][0], c['meta'][1])
+            specs.append(spec(MOD, 'Interruption', name, cfg=dict(c, stop=stop), cost=200))
     for f in ('can_skip_spec', 'can_skip_never_skips_ancestor'):
         specs.append(crosshair_runner.spec(MOD, CH, f, 'progress/' + f, timeout=120, cost=60, functions=['SeedProgress.can_skip']))
     specs.append(spec(MOD, 'SeedWalk', 'twin/SeedWalk', kind='witness', cfg=dict(grid='f2', levels=[0, 1], meta=[1, 1], target_level=1)))
     specs.append(spec(MOD, 'Interruption', 'twin/Interruption', kind='witness', cfg=dict(grid='f2', levels=[0, 1], meta=[1, 1], target_level=1)))
     specs.append(crosshair_runner.spec(MOD, CH, 'twin_can_skip', 'twin/can_skip', kind='witness', timeout=60))
-    for label, h, patches, c in (CANARIES if tier == 'thorough' else CANARIES[:2] + CANARIES[3:]):
+    for label, h, patches, c in (CANARIES if tier == 'thorough' else CANARIES[:2] + CANARIES[3:]):   # quick skips one
         specs.append(spec(MOD, h, 'canary/' + label, kind='canary', cfg=c, patches=patches, cost=100))
     return specs
 
